@@ -153,9 +153,95 @@ def histories(r, n):
     return lines, meta
 
 
+def just_fonts(r, n, tmp):
+    """fonts with 1..3 justification levels (Silf JLevels naming glyph attributes for stretch, shrink, step, weight) whose values the
+    loader does not look at: zero, positive and negative weights, steps of 0..5, stretch/shrink 0..40; optionally a rule that writes a
+    justification attribute of the slot (which allocates the SlotJustify records at shaping time)"""
+    import grfont as G
+    small = str(lib.REPO / "tests" / "fonts" / "small.ttf")
+    out = []
+    for k in range(n):
+        adv = r.random() < 0.35
+        nlev = 1 if adv else r.choice([1, 1, 2, 2, 3, 4])
+        justs, gattrs = [], {g: {} for g in (3, 4, 5)}
+        for lev in range(nlev):
+            base = 4 + 4 * lev
+            justs.append((base, base + 1, base + 2, base + 3))
+            S, kk, mm, way = r.choice([5, 15, 40]), r.choice([1, 2, 3]), r.choice([1, 2]), r.random() < 0.5
+            for g in (3, 4, 5):
+                if adv:
+                    # one glyph of negative weight that can give way by S next to rigid glyphs of positive weight
+                    st, sh, sp, wt = ((S, 0, 1, -kk) if way else (0, S, 1, -kk)) if g == 3 else ((0, 0, 1, mm) if g == 4 or r.random() < 0.5 else (0, 0, 1, 0))
+                elif r.random() < 0.5:
+                    # the combinations in which the distribution loop of Segment::justify has to clamp: a negative weight that can give way,
+                    # next to rigid glyphs of positive weight
+                    st, sh, sp, wt = r.choice([(0, 15, 1, -3), (0, 0, 1, 1), (15, 0, 1, -1), (0, 5, 1, -1), (40, 40, 1, 2), (0, 0, 1, 0), (10, 10, 2, -2), (0, 0, 1, 3)])
+                else:
+                    st, sh, sp, wt = r.choice([0, 0, 5, 15, 40]), r.choice([0, 0, 5, 15, 40]), r.choice([0, 1, 1, 2, 5]), r.choice([-3, -1, 0, 1, 1, 2, 5])
+                gattrs[g].update({base: st, base + 1: sh, base + 2: sp, base + 3: wt})
+        if r.random() < 0.4:
+            act = G.code(G.PUSH_BYTE, r.randrange(0, 30), G.ATTR_SET, G.SL[r.choice(["JStretch", "JShrink", "JStep", "JWeight"])], G.NEXT, G.RET_ZERO)
+        else:
+            act = G.code(G.NEXT, G.RET_ZERO)
+        # Silf flags bit 0: line-end contextuals (gr_seg_justify brackets the line with two temporary line-end slots); direction byte 2: a
+        # right-to-left font (the bases of a segment whose direction bit is set are linked backwards)
+        fdir = r.choice([0, 0, 1])
+        silf = G.Silf([G.Pass([G.Rule(1, 0, action=act)], ranges=[(3, 3, 0)])], nglyphs=8, classes=[[3]], justs=justs, flags=r.choice([0, 0, 1]), direction=1 + fdir)
+        p = tmp / ("j%d.ttf" % k)
+        G.make_font(small, str(p), silf, nattrs=24, gattrs=gattrs, charmap={0x61: 3, 0x62: 4, 0x63: 5})
+        out.append(str(p))
+        JINFO[str(p)] = (S, way) if adv and nlev == 1 else None
+        JDIR[str(p)] = fdir
+    return out
+
+
+ADV = {0x61: 462, 0x62: 520, 0x63: 462}
+JINFO = {}
+JDIR = {}
+
+
+def just_histories(r, fonts, per_font):
+    lines, meta = [], []
+    for fi in range(len(fonts)):
+        for _ in range(per_font):
+            text = [r.choice([0x61, 0x62, 0x63]) for _ in range(r.randrange(2, 9))]
+            if JINFO.get(fonts[fi]) and r.random() < 0.6:
+                text = [r.choice([0x61, 0x62, 0x63])] + [0x61] * r.randrange(1, 4) + [0x62] * r.randrange(1, 3)
+            hx = "".join("%08x" % c for c in text)
+            nb = r.randrange(0, 3)
+            br = sorted(set(r.randrange(1, len(text)) for _ in range(nb)))
+            fd = JDIR.get(fonts[fi], 0)
+            d = (r.choice([0, 2]) | fd) ^ (1 if r.random() < 0.3 else 0)
+            meta.append({"opposite": (d & 1) != fd, "breaks": bool(br)})
+            ops = ["F0=%d,0,f" % fi, "N0=0,%s" % r.choice(["1000", "1000", "12"]), "S0=0,-1,-1,0,32,%d,-1,%s" % (d, hx)]
+            if br:
+                ops.append("B0=" + ",".join(map(str, br)))
+            ops.append("W0")
+            for _ in range(r.randrange(1, 4)):
+                # the glyphs of small.ttf advance by about 460..520 units: widths around the natural width of 1..8 of them, a little
+                # narrower or wider, and the extremes
+                # (at 1000 ppm, the font's units per em, the glyphs a b c advance by 462, 520, 462): the natural width of the text or of a
+                # part of it, a little narrower or wider - by the stretch and shrink values the generator hands out and by odd amounts -
+                # and the extremes
+                nat = sum(ADV[c] for c in text[:r.choice([len(text), len(text), r.randrange(1, len(text) + 1)])])
+                w = r.choice([str(nat + r.choice([-1, 1]) * r.choice([0, 1, 5, 10, 15, 20, 30, 40, 45, 80, r.randrange(0, 100)])), "0", "-1", "1e9", "100"])
+                info = JINFO.get(fonts[fi])
+                if info and not br and r.random() < 0.6:
+                    # exactly as much as the glyphs of negative weight can give way (the first slot of a line takes no part)
+                    w = str(sum(ADV[c] for c in text) + (1 if info[1] else -1) * info[0] * sum(1 for c in text[1:] if c == 0x61))
+                    ops.append("J0=0,0,%s,0,-1,-1" % w)
+                    ops.append("W0")
+                    continue
+                ops.append("J0=%d,%d,%s,%d,%d,%d" % (r.randrange(0, len(br) + 1), r.choice([0, -1]), w, r.choice([0, 1, 2, 3]), r.choice([-1, -1, 0, 1]), r.choice([-1, -1, 0, 3])))
+                ops.append("W0")
+            ops += ["d0", "L0"]
+            lines.append(";".join(ops))
+    return lines, meta
+
+
 def matches_known(k, f):
     sig = k.get("signature", {})
-    return f.get("mode") == "history" and f.get("opposite") is True and f.get("breaks") is True and sig.get("opposite_dir_and_break")
+    return f.get("mode") in ("history", "justfont") and f.get("opposite") is True and f.get("breaks") is True and sig.get("opposite_dir_and_break")
 
 
 def run(ctx):
@@ -180,10 +266,49 @@ def run(ctx):
             res.failures.append({"harness": "h_seg", "mode": "history", "line": l, "impl": i[:800], "model": None, "why": why, "exe_args": fonts,
                                  "opposite": m["opposite"], "breaks": m["breaks"], "font": m["font"], "dir": m["dir"]})
     res.samples.append({"in": lines[0][:300], "impl": impl[0][:300], "model": "(no model at this level)"})
+    # fonts with justification levels: Segment::justify's distribution loop and the SlotJustify records
+    import os
+    import shutil
+    tmp = lib.CACHE / ("just-%d" % os.getpid())
+    tmp.mkdir(parents=True, exist_ok=True)
+    try:
+        jf = [str(p) for p in sorted((lib.ROOT / "corpus" / "c19").glob("*.ttf"))] if (lib.ROOT / "corpus" / "c19").exists() else []
+        ncorp = len(jf)
+        jf += just_fonts(r, 60 if q else 1500, tmp)
+        jl, jm = just_histories(r, jf, 6 if q else 10)
+        for cf in sorted((lib.ROOT / "corpus" / "c19").glob("*.line")) if ncorp else []:
+            jl.insert(0, cf.read_text().strip())
+            jm.insert(0, {"opposite": False, "breaks": False})
+        ji = lib.run_lines([exe] + jf, jl, per_chunk=50, timeout=120, env=lib.LEAK_ENV)
+        res.rules.append("justification fonts: %d corpus + %d synthesised fonts (1..4 justification levels; stretch, shrink, step and weight glyph attributes of either sign; optional rule writing a justification attribute) x texts of 2..8 glyphs x 0..2 cuts x 1..3 gr_seg_justify calls around the natural width" % (ncorp, len(jf) - ncorp))
+        for l, i, m in zip(jl, ji, jm):
+            res.evaluations += 1
+            res.distinct.add(l)
+            ok, why = history_verdict(i)
+            res.count("justfont:%s:%s" % (("opposite" if m["opposite"] else "same") + ("+breaks" if m["breaks"] else ""), "ok" if ok else ("skip" if ok is None else "FAIL")))
+            if ok is False:
+                fi = int(l.split("=")[1].split(",")[0])
+                res.failures.append({"harness": "h_seg", "mode": "justfont", "line": l, "impl": i[:800], "model": None, "why": why, "exe_args": [],
+                                     "opposite": m["opposite"], "breaks": m["breaks"], "font_hex": open(jf[fi], "rb").read().hex()})
+    finally:
+        shutil.rmtree(tmp, ignore_errors=True)
     return res.as_dict()
 
 
 def replay(ctx, obj):
+    if obj.get("mode") == "justfont":
+        import os
+        exe = lib.build_harness("h_seg")
+        tmp = lib.CACHE / ("justreplay-%d.ttf" % os.getpid())
+        tmp.write_bytes(bytes.fromhex(obj["font_hex"]))
+        try:
+            l = re.sub(r"^F0=\d+,", "F0=0,", obj["line"])
+            out = lib.run_lines([exe, str(tmp)], [l], timeout=120, env=lib.LEAK_ENV)[0]
+        finally:
+            tmp.unlink()
+        ok, why = history_verdict(out)
+        print("input : %s\nimpl  : %s\nproperty predicate on impl output: %s %s" % (l[:400], out[:800], ok, why))
+        return ok is False
     if obj.get("mode") == "history":
         exe = lib.build_harness("h_seg")
         out = lib.run_lines([exe] + obj["exe_args"], [obj["line"]], timeout=120)[0]
